@@ -58,9 +58,11 @@ class Module:
         self.name = os.path.splitext(os.path.basename(path))[0]
         self.text = open(path).read()
         self.inject = None      # (file, modname)
+        self.injects = []
         self.job = {}
         self.contracts = []     # (file, fnpath, [lines])
         self.deasync = []       # files
+        self.requires = []      # other module names
         self.harnesses = []
         self.parse()
 
@@ -73,6 +75,7 @@ class Module:
             if m:
                 kv = dict(x.split('=', 1) for x in m.group(1).split())
                 self.inject = (kv['file'], kv['mod'])
+                self.injects.append(self.inject)
             m = re.match(r'//\s*@job\s+(.*)$', l)
             if m:
                 for x in shlex.split(m.group(1)):
@@ -80,6 +83,9 @@ class Module:
                         k, v = x.split('=', 1); self.job[k] = v
                     else:
                         self.job[x] = True
+            m = re.match(r'//\s*@requires\s+(.*)$', l)
+            if m:
+                self.requires += m.group(1).split()
             m = re.match(r'//\s*@deasync\s+(.*)$', l)
             if m:
                 self.deasync += m.group(1).split()
@@ -188,16 +194,16 @@ def inject(w, modules):
             with open(p, 'w') as f: f.write(deasync_text(t))
             info['deasync'].append(file)
     for mod in modules:
-        file, modname = mod.inject
         dst = os.path.join(vm, mod.name + '.rs')
         shutil.copy(mod.path, dst)
-        p = os.path.join(w, file)
-        if not os.path.exists(p):
-            raise MachineryError('inject target lost: ' + file)
-        with open(p, 'a') as f:
-            f.write('\n#[cfg(kani)]\n#[path = "%s"]\nmod %s;\n' % (dst, modname))
-        added += 3
-        info['modules'].append('%s <- mod %s' % (file, modname))
+        for (file, modname) in mod.injects:
+            p = os.path.join(w, file)
+            if not os.path.exists(p):
+                raise MachineryError('inject target lost: ' + file)
+            with open(p, 'a') as f:
+                f.write("\n#[cfg(kani)]\n#[path = \"%s\"]\npub(crate) mod %s;\n" % (dst, modname))
+            added += 3
+            info['modules'].append('%s <- mod %s' % (file, modname))
     info['added_lines'] = added
     return info
 
@@ -226,6 +232,7 @@ def run_job(w, job_modules, harnesses, outdir, jobs=16, harness_timeout=600, tot
             if z: zf.add(z)
     for z in sorted(zf): cmd += ['-Z', z]
     if 'function-contracts' in zf: cmd += ['--no-assert-contracts']
+    cmd += ['--no-assertion-reach-checks']
     for h in harnesses: cmd += ['--harness', h.name]
     cmd += ['--exact'] if False else []
     js = os.path.join(outdir, 'kani-%s-%s.json' % (pkg, hashlib.md5(' '.join(h.name for h in harnesses).encode()).hexdigest()[:8]))
@@ -256,12 +263,12 @@ def run_job(w, job_modules, harnesses, outdir, jobs=16, harness_timeout=600, tot
         kinds = {}
         for c in failed:
             kinds.setdefault(classify_check(c), []).append(c)
-        # vacuity guard: `assert!(true, "verif-reached: ...")` markers must be reachable
+        # vacuity guard: every `kani::cover!(true, "verif-reached: ...")` marker must be satisfiable
         reach = [c for c in checks if 'verif-reached' in (c.get('description') or '')]
-        unsat_covers = [c for c in reach if (c.get('status') or '').lower() == 'unreachable']
+        unsat_covers = [c for c in reach if (c.get('status') or '').lower() in ('unsatisfiable', 'unreachable')]
         covers = reach
-        if not [c for c in reach if (c.get('status') or '').lower() == 'success']:
-            unsat_covers = unsat_covers or [{'description': 'no reachable verif-reached marker in harness'}]
+        if not [c for c in reach if (c.get('status') or '').lower() in ('satisfied', 'success')]:
+            unsat_covers = unsat_covers or [{'description': 'no satisfiable verif-reached marker in harness'}]
         pd = pdet.get(hid, {})
         res['harness'][h.name] = {
             'id': hid, 'status': r.get('status'), 'duration_ms': r.get('duration_ms'),
@@ -299,38 +306,39 @@ def trace_values(w, mod, h, timeout=900):
         if z: zf.add(z)
     for z in sorted(zf): cmd += ['-Z', z]
     if 'function-contracts' in zf: cmd += ['--no-assert-contracts']
-    cmd += ['--harness', h.name, '--no-assertion-reach-checks', '--output-format', 'old', '--cbmc-args', '--trace', '--stop-on-fail']
+    cmd += ['--harness', h.name, '--no-assertion-reach-checks', '--output-format', 'old', '--cbmc-args', '--trace']
     rc, out, dt = sh(cmd, cwd=w, timeout=timeout)
-    k = out.find('\nTrace for ')
-    if k < 0:
-        k = out.find('Counterexample:')
-    if k < 0:
+    blocks = out.split('\nTrace for ')[1:]
+    body = None; viol = ''
+    for b in blocks:
+        end = b.find('\nViolated property:')
+        if end < 0: continue
+        v = b[end:end+900]
+        if 'cover condition' in v or 'verif-reached' in v: continue
+        body = b[:end]; viol = v
+        break
+    if body is None:
         return None, out[-2000:]
-    tr = out[k:]
-    end = tr.find('\nViolated property:')
-    viol = tr[end:end+800] if end >= 0 else ''
-    body = tr[:end] if end >= 0 else tr
     vals = []
-    for m in re.finditer(r'goto_symex\$\$return_value\$\$\w*any_raw_internal\w*=(.*)$', body, re.M):
+    for m in re.finditer(r'goto_symex\$\$return_value\$\$\w*any_raw_(?:internal|array)\w*=(.*)$', body, re.M):
         rhs = m.group(1).strip()
         pm = re.search(r'\((\{?[01 ,{}]+\}?)\)\s*$', rhs)
         if not pm: return None, 'unparsed any() value: ' + rhs[:120]
         bits = pm.group(1)
         if '{' in bits:
+            # arrays: Kani's native playback draws one value per element
             elems = [e.strip() for e in bits.strip('{} ').split(',')]
-            by = []
             for e in elems:
                 g = e.split()
-                by += [int(x, 2) for x in reversed(g)]
-            vals.append(by)
+                vals.append([int(x, 2) for x in reversed(g)])
         else:
             g = bits.split()
             vals.append([int(x, 2) for x in reversed(g)])
     if not vals:
         return None, 'no any() values in trace'
-    lines = ['#[test]', 'fn kani_concrete_playback_%s_verif() {' % h.name, '    let concrete_vals: Vec<Vec<u8>> = vec![']
+    lines = ['#[test]', 'fn kani_concrete_playback_%s_verif() {' % h.name, '    let concrete_vals: std::vec::Vec<std::vec::Vec<u8>> = std::vec![']
     for v in vals:
-        lines.append('        vec![%s],' % ', '.join(str(x) for x in v))
+        lines.append('        std::vec![%s],' % ', '.join(str(x) for x in v))
     lines += ['    ];', '    kani::concrete_playback_run(concrete_vals, %s);' % h.name, '}']
     return '\n'.join(lines) + '\n', viol
 
@@ -352,23 +360,39 @@ def playback_values(w, mod, h, outdir, timeout=900):
         txt = m.group(1)
         k = txt.find('#[test]')
         txt = txt[k:] if k >= 0 else None   # drop Kani's doc comment (may contain unescaped multi-line text)
+        if txt:
+            txt = txt.replace('Vec<Vec<u8>>', 'std::vec::Vec<std::vec::Vec<u8>>').replace(' vec![', ' std::vec![')
     return txt, out[-3000:]
 
-def run_playback(w, mod, h, test_text, timeout=900):
+def run_playback(w, mod, h, test_text, timeout=900, expect=()):
     """Append the generated unit test to the scratch copy of the harness module and execute it natively
-    (cargo kani playback): the harness body, i.e. the real functions of /repo, run on the concrete inputs."""
+    (cargo kani playback): the harness body, i.e. the real functions of /repo, run on the concrete inputs.
+    `expect`: descriptions of the failed checks; the native panic must be that assertion (or a panic raised
+    inside the code of /repo) to count as reproduced."""
     dst = os.path.join(w, 'verif_mods', mod.name + '.rs')
     m = re.search(r'fn (kani_concrete_playback_\w+)\(', test_text)
     if not m: return None, 'no test fn in playback text'
     tname = m.group(1)
-    with open(dst, 'a') as f:
-        f.write('\n' + test_text + '\n')
+    cur = open(dst).read()
+    if ('fn %s(' % tname) not in cur:
+        with open(dst, 'a') as f:
+            f.write('\n' + test_text + '\n')
     pkg = mod.job.get('pkg')
     cmd = ['cargo', 'kani', 'playback', '-Z', 'concrete-playback', '-p', pkg]
     if mod.job.get('no-default-features'): cmd += ['--no-default-features']
     if mod.job.get('features'): cmd += ['--features', mod.job['features']]
     cmd += ['--', tname]
     rc, out, dt = sh(cmd, cwd=w, timeout=timeout)
-    failed = bool(re.search(r'test result: FAILED|panicked at', out))
     passed = bool(re.search(r'test result: ok\. 1 passed', out))
-    return ('reproduced' if failed else 'not-reproduced' if passed else 'error'), out[-4000:]
+    pm = re.search(r"panicked at ([^\n]*?):\n(.*?)\n(?:stack backtrace|note:)", out, re.S)
+    if passed: return 'not-reproduced', out[-4000:]
+    if not pm: return 'error', out[-4000:]
+    where, msg = pm.group(1), pm.group(2)
+    if 'concrete_playback' in where or 'concrete' in msg.lower():
+        return 'error', ('playback input misaligned: %s %s\n' % (where, msg[:200])) + out[-3000:]
+    exp = [re.sub(r'^"|"$', '', (e or '').strip()) for e in expect]
+    if any(e and e in msg for e in exp):
+        return 'reproduced', ('native panic: %s: %s\n' % (where, msg[:300])) + out[-3000:]
+    if 'verif_mods' not in where:
+        return 'reproduced', ('native panic inside /repo code: %s: %s\n' % (where, msg[:300])) + out[-3000:]
+    return 'not-reproduced', ('native run stopped at a different harness assertion: %s: %s\n' % (where, msg[:300])) + out[-3000:]
